@@ -6183,7 +6183,11 @@ class Path(Shape, MutableSequence):
         the second control point in the previous path."""
         for index in range(len(points)):
             start_pos = self.current_point
-            control1 = self.smooth_point
+            last_segment = self._segments[-1] if len(self._segments) != 0 else None
+            if isinstance(last_segment, QuadraticBezier):
+                control1 = last_segment.control.reflected_across(start_pos)
+            else:
+                control1 = start_pos
             end_pos = points[index]
             if end_pos in ("z", "Z"):
                 end_pos = self._segment_close_point()
@@ -6221,7 +6225,11 @@ class Path(Shape, MutableSequence):
         the second control point in the previous path."""
         for index in range(0, len(points), 2):
             start_pos = self.current_point
-            control1 = self.smooth_point
+            last_segment = self._segments[-1] if len(self._segments) != 0 else None
+            if isinstance(last_segment, CubicBezier):
+                control1 = last_segment.control2.reflected_across(start_pos)
+            else:
+                control1 = start_pos
             control2 = points[index]
 
             if control2 in ("z", "Z"):
